@@ -33,6 +33,20 @@ Theorem C05_register_first : forall a xid fs r,
   ((forall b, r <> ROk b) -> filter is_try evs = [] /\ ok = false).
 Proof. exact register_first. Qed.
 
+(* several prepares with ONE context inside a global transaction (the same action again, or different
+   actions): n prepares => n registrations; every try comes directly after the registration of its own
+   action; as many tries as registrations that succeeded; the events are exactly, per prepare, its
+   registration followed by its try iff the coordinator accepted *)
+Theorem C05_register_first_seq : forall xid ps,
+  let evs := prepare_seq true xid ps in
+  List.length (filter is_register evs) = List.length ps /\
+  paired evs = true /\
+  List.length (filter is_try evs) = List.length (filter (fun p => reply_ok (snd p)) ps) /\
+  evs = flat_map (fun p =>
+          ERegister tcc_type (a_name (fst (fst p))) xid (app_data (fst (fst p)) (snd (fst p))) ::
+          match snd p with ROk b => [ETry (a_name (fst (fst p))) b] | _ => [] end) ps.
+Proof. exact register_first_seq. Qed.
+
 (* the context the user's commit / rollback receives when the coordinator sends back the registered
    application data is the float64 normal form of the map captured at prepare *)
 Theorem C05_context : forall a fs,
@@ -98,17 +112,27 @@ Example C05_context_nonvacuous :
         (bs "sys::prepare", GStr (bs "Prepare")); (bs "sys::rollback", GStr (bs "Rollback"))].
 Proof. vm_compute. reflexivity. Qed.
 
+Example C05_register_first_seq_nonvacuous :
+  let a := mkA (bs "debit") (bs "Prepare") (bs "Commit") (bs "Rollback") in
+  let b := mkA (bs "credit") (bs "Try") (bs "Confirm") (bs "Cancel") in
+  (* one transfer: the same action twice, another action in between, one registration refused *)
+  map (fun e => match e with ERegister _ r _ _ => (r, 0) | ETry r n => (r, n) end)
+      (prepare_seq true (bs "x") [(a, [], ROk 11); (b, [], RFailCode); (a, [], ROk 12)])
+  = [(bs "debit", 0); (bs "debit", 11); (bs "credit", 0); (bs "debit", 0); (bs "debit", 12)].
+Proof. vm_compute. reflexivity. Qed.
+
 Example C05_dispatch_nonvacuous :
   let reg := [bs "act"; bs "other"] in
-  phase2_seq reg [mkQ true (bs "act") (bs "x") 1 7 AEmpty false; mkQ true (bs "act") (bs "x") 1 8 AEmpty true;
-                  mkQ false (bs "nosuch") (bs "x") 1 9 AEmpty false] =
+  (* a user method returning (false, nil) is a success; (true, error) is a failure *)
+  phase2_seq reg [mkQ true (bs "act") (bs "x") 1 7 AEmpty false false; mkQ true (bs "act") (bs "x") 1 8 AEmpty true true;
+                  mkQ false (bs "nosuch") (bs "x") 1 9 AEmpty false true] =
   [EInvoke (bs "act") true (bs "x") 1 (bs "act") []; ERespond 7 true (bs "x") 1 5%N 1%N;
    EInvoke (bs "act") true (bs "x") 1 (bs "act") []; ERespond 8 true (bs "x") 1 6%N 0%N].
 Proof. vm_compute. reflexivity. Qed.
 
 (* malformed application data really occurs in the model's domain and is answered, not dispatched *)
 Example C05_malformed_nonvacuous :
-  phase2 [bs "act"] (mkQ false (bs "act") (bs "x") 1 7 (AJson (JObj [(bs "actionContext", JNumZ 5)])) false)
+  phase2 [bs "act"] (mkQ false (bs "act") (bs "x") 1 7 (AJson (JObj [(bs "actionContext", JNumZ 5)])) false true)
   = [ERespond 7 false (bs "x") 1 9%N 0%N] /\
-  phase2 [bs "act"] (mkQ true (bs "act") (bs "x") 1 7 AGarbage false) = [ERespond 7 true (bs "x") 1 6%N 0%N].
+  phase2 [bs "act"] (mkQ true (bs "act") (bs "x") 1 7 AGarbage false true) = [ERespond 7 true (bs "x") 1 6%N 0%N].
 Proof. vm_compute. split; reflexivity. Qed.
